@@ -14,11 +14,35 @@ import contextlib
 import inspect
 import io
 import random
+import warnings
 
 from . import doctests as gd
 
 # kind -> (lines, is_expr)   ; stdout / values come from the reference execution
-def stmt_lines(kind, k):
+def stmt_lines(kind, k, ref=None):
+    # helpers whose BODY must never run unless the program drives them (it never does): the body records -1-k
+    if kind == 'corodef':
+        return ['async def cf%d(a=t(%d)):' % (k, k), '    T.append(-1 - %d)' % k, '    print("coro body %d")' % k, '    return a']
+    if kind == 'gendef':
+        return ['def gf%d(a=t(%d)):' % (k, k), '    T.append(-1 - %d)' % k, '    print("gen body %d")' % k, '    yield a']
+    if kind == 'agendef':
+        return ['async def ag%d(a=t(%d)):' % (k, k), '    T.append(-1 - %d)' % k, '    print("agen body %d")' % k, '    yield a']
+    if kind == 'awaitabledef':
+        return ['class AW%d(object):' % k, '    v = t(%d)' % k, '    def __await__(self):', '        T.append(-1 - %d)' % k,
+                '        return iter(())', '    def __call__(self):', '        T.append(-2 - %d)' % k, '        return 0']
+    # expression statements whose VALUE is a coroutine / generator / async generator / awaitable / callable
+    if kind == 'corocall':
+        return ['cf%d(t(%d))' % (ref, k)]
+    if kind == 'gencall':
+        return ['gf%d(t(%d))' % (ref, k)]
+    if kind == 'agencall':
+        return ['ag%d(t(%d))' % (ref, k)]
+    if kind == 'awaitableval':
+        return ['AW%d() if t(%d) >= 0 else None' % (ref, k)]
+    if kind == 'funcvalue':
+        return ['cf%d if t(%d) >= 0 else None' % (ref, k)]
+    if kind == 'lambdavalue':
+        return ['(lambda: T.append(-1 - %d)) if t(%d) >= 0 else None' % (k, k)]
     if kind == 'backslash':
         return ['b%d = t(%d) + \\' % (k, k), '    1']
     if kind == 'semicolon':
@@ -29,6 +53,10 @@ def stmt_lines(kind, k):
         return ['lam%d = (lambda a:' % k, '    a + t(%d))(1)' % k]
     if kind == 'multicomment':
         return ['m%d = [t(%d),' % (k, k), '      # inner comment', '      0]']
+    if kind == 'decorated2':
+        return ['@deco', '@deco', 'def g%d(a=t(%d)):' % (k, k), '    return a']
+    if kind == 'multicomment0':
+        return ['mc%d = [t(%d),' % (k, k), '# comment at column 0, inside the brackets', '      0]']
     if kind == 'asyncdef':
         return ['async def h%d(a=t(%d)):' % (k, k), '    return a']
     if kind == 'deffn':
@@ -40,34 +68,57 @@ def stmt_lines(kind, k):
     if kind == 'tripbare':
         return ['zb%d = """l1' % k, 'l2""" + str(t(%d))' % k]
     if kind == 'starimport':
-        return ['from os.path import *']
+        return ['from %s import *' % ['os.path', 'math', 'string'][k % 3]]
     if kind == 'directive':
         return ['# xdoctest: +ELLIPSIS']
     return gd.statement(kind, k)[0]
 
 
-EXPR_KINDS = {'print', 'expr', 'strexpr', 'both', 'multiexpr', 'multiprint', 'awaitexpr'}
+# call kind -> the helper it needs
+DEF_FOR = {'corocall': 'corodef', 'gencall': 'gendef', 'agencall': 'agendef', 'awaitableval': 'awaitabledef',
+           'funcvalue': 'corodef'}
+VALUE_KINDS = set(DEF_FOR) | {'lambdavalue'}
+
+
+def value_want(s):
+    """the repr of the value of an expression statement, with the address left to the ellipsis"""
+    k, r = s.k, s.ref
+    return {'expr': '%d' % k, 'strexpr': "'s%d'" % k, 'multiexpr': '(%d, 1)' % k, 'awaitexpr': '%d' % k,
+            'corocall': '<coroutine object cf%s at ...>' % r, 'gencall': '<generator object gf%s at ...>' % r,
+            'agencall': '<async_generator object ag%s at ...>' % r, 'awaitableval': '<...AW%s object at ...>' % r,
+            'funcvalue': '<function cf%s at ...>' % r, 'lambdavalue': '<function <lambda> at ...>'}.get(s.kind)
+
+
+EXPR_KINDS = {'print', 'expr', 'strexpr', 'both', 'multiexpr', 'multiprint', 'awaitexpr'} | VALUE_KINDS
 SINGLE_LINE = {'assign', 'print', 'expr', 'strexpr', 'both', 'print2', 'semicolon', 'await', 'awaitexpr', 'comment',
-               'starimport', 'directive'}
-COMPOUND = {'compound', 'forloop', 'classdef', 'decorated', 'asyncdef', 'deffn', 'with'}
+               'starimport', 'directive'} | VALUE_KINDS
+COMPOUND = {'compound', 'forloop', 'classdef', 'decorated', 'decorated2', 'asyncdef', 'deffn', 'with', 'corodef', 'gendef', 'agendef',
+            'awaitabledef'}
 NO_TRACE = {'comment', 'starimport', 'directive'}
 KINDS = ['assign', 'print', 'expr', 'strexpr', 'both', 'multi', 'multiexpr', 'multiprint', 'compound', 'decorated',
          'classdef', 'tripstr', 'tripbare', 'print2', 'backslash', 'semicolon', 'forloop', 'lambda', 'multicomment',
-         'asyncdef', 'deffn', 'dictml', 'await', 'awaitexpr', 'comment', 'with']
+         'asyncdef', 'deffn', 'dictml', 'await', 'awaitexpr', 'comment', 'with', 'multicomment0', 'decorated2',
+         'corocall', 'gencall', 'agencall', 'awaitableval', 'funcvalue', 'lambdavalue']
 ASYNC_KINDS = {'await', 'awaitexpr'}
+# an inline directive sits on the statement's only line, or on the FIRST line of a multi-line one (e.g. a decorator)
+INLINE_OK = {'assign', 'print', 'expr', 'semicolon', 'multi', 'decorated', 'decorated2', 'compound', 'classdef', 'deffn', 'asyncdef',
+             'multiexpr', 'multiprint', 'dictml', 'forloop', 'corodef', 'corocall', 'gencall'}
 
 
 class Stmt(object):
-    def __init__(self, kind, k, style='new', terminator=False, inline=None):
+    def __init__(self, kind, k, style='new', terminator=False, inline=None, ref=None, shift=0, cont=False):
         self.kind = kind
         self.k = k
+        self.ref = ref                # index of the helper a value kind uses
+        self.shift = shift            # extra blanks before this statement's lines (and its want)
+        self.cont = cont              # the statement STARTS on a `... ` line (explicit PS2: stays with what precedes it)
         self.style = style            # new | old | bare (tripstr/tripbare only)
         self.terminator = terminator  # bare '...' line after a compound statement (old style)
         self.inline = inline          # directive text appended to a single-line statement
-        self.lines = stmt_lines(kind, k)
+        self.lines = stmt_lines(kind, k, ref)
         self.is_expr = kind in EXPR_KINDS
         self.want = None              # list of want lines
-        self.sep = None               # None | 'blank' | 'prose' : what follows (after the want)
+        self.sep = None               # None | 'blank' | 'prose' | 'shallow' : what follows (after the want)
 
     def exec_lines(self):
         ls = list(self.lines)
@@ -84,6 +135,8 @@ class Stmt(object):
         for i, l in enumerate(ex):
             if self.terminator and i == len(ex) - 1:
                 out.append(('...', False))
+            elif self.cont and not (self.style == 'bare' and i > 0):
+                out.append(('... ' + l, False))
             elif i == 0 or self.style == 'new':
                 out.append(('>>> ' + l, False))
             elif self.style == 'bare' and self.kind in ('tripstr', 'tripbare'):
@@ -102,7 +155,21 @@ class Stmt(object):
             d['terminator'] = True
         if self.inline:
             d['inline'] = self.inline
+        if self.ref is not None:
+            d['ref'] = self.ref
+        if self.shift:
+            d['shift'] = self.shift
+        if self.cont:
+            d['cont'] = True
         return d
+
+    @staticmethod
+    def from_desc(sd):
+        s = Stmt(sd['kind'], sd['k'], sd.get('style', 'new'), sd.get('terminator', False), sd.get('inline'),
+                 sd.get('ref'), sd.get('shift', 0), sd.get('cont', False))
+        s.want = sd.get('want')
+        s.sep = sd.get('sep')
+        return s
 
 
 class Program(object):
@@ -131,23 +198,35 @@ class Program(object):
         n = 0
         for s in self.stmts:
             stmt_first.append(n)
+            ind = self.indent + ' ' * s.shift
             for txt, _bare in s.prompt_lines():
                 line_of.append(len(doc))
-                doc.append(self.indent + txt)
+                doc.append(ind + txt)
                 n += 1
             if s.want is not None:
                 for w in s.want:
-                    doc.append(self.indent + w)
-            if s.sep == 'blank':
+                    doc.append(ind + w)
+            if s.sep == 'shallow':
+                # prose DIRECTLY after the source/want lines, at a smaller indentation than the example
+                doc.append('Prose at column zero.')
+            elif s.sep == 'blank':
                 doc.append('')
             elif s.sep == 'prose':
                 doc.append('')
-                doc.append(self.indent + 'Some prose about the next lines.')
+                doc.append(ind + 'Some prose about the next lines.')
                 doc.append('')
         return '\n'.join(doc) + '\n', line_of, stmt_first
 
     def describe(self):
         return {'indent': self.indent, 'header': self.header, 'stmts': [s.describe() for s in self.stmts]}
+
+    @staticmethod
+    def from_desc(d):
+        return Program([Stmt.from_desc(sd) for sd in d['stmts']], d['indent'], d['header'])
+
+    def column(self, s):
+        """column of the prompts of statement s"""
+        return len((self.indent + ' ' * s.shift).expandtabs())
 
 
 # ------------------------------------------------------------------------------- reference execution
@@ -158,16 +237,18 @@ def reference(source, uses_await=False):
     injected = set(ns)
     buf = io.StringIO()
     err = None
-    try:
-        flags = ast.PyCF_ALLOW_TOP_LEVEL_AWAIT if uses_await else 0
-        code = compile(source, '<reference>', 'exec', flags=flags, dont_inherit=True)
-        with contextlib.redirect_stdout(buf):
-            if code.co_flags & inspect.CO_COROUTINE:
-                asyncio.run(eval(code, ns))
-            else:
-                exec(code, ns)
-    except BaseException as ex:   # noqa
-        err = '%s: %s' % (type(ex).__name__, ex)
+    with warnings.catch_warnings():
+        warnings.simplefilter('ignore')     # "coroutine ... was never awaited": the program never awaits it, on purpose
+        try:
+            flags = ast.PyCF_ALLOW_TOP_LEVEL_AWAIT if uses_await else 0
+            code = compile(source, '<reference>', 'exec', flags=flags, dont_inherit=True)
+            with contextlib.redirect_stdout(buf):
+                if code.co_flags & inspect.CO_COROUTINE:
+                    asyncio.run(eval(code, ns))
+                else:
+                    exec(code, ns)
+        except BaseException as ex:   # noqa
+            err = '%s: %s' % (type(ex).__name__, ex)
     return list(T), buf.getvalue(), canon_bindings(ns, injected), err
 
 
@@ -212,16 +293,24 @@ def gen_program(rng, max_len=7, allow_await=True, allow_star=False, allow_direct
     if allow_directive:
         kinds = kinds + ['directive']
     stmts = []
-    for k in range(n):
+    while len(stmts) < n:
         kind = rng.choice(kinds)
+        ref = None
+        if kind in DEF_FOR:
+            have = [x.k for x in stmts if x.kind == DEF_FOR[kind]]
+            if not have or rng.random() < 0.2:
+                stmts.append(Stmt(DEF_FOR[kind], len(stmts), rng.choice(['new', 'old'])))
+                have = [stmts[-1].k]
+            ref = have[-1]
+        k = len(stmts)
         style = rng.choice(['new', 'old', 'old'])
         if kind in ('tripstr', 'tripbare') and rng.random() < 0.5:
             style = 'bare'
         term = (kind in COMPOUND and style == 'old' and rng.random() < 0.3)
         inline = None
-        if allow_directive and kind in ('assign', 'print', 'expr', 'semicolon', 'multi') and rng.random() < 0.12:
+        if allow_directive and kind in INLINE_OK and rng.random() < 0.12:
             inline = rng.choice(['+ELLIPSIS', '+NORMALIZE_WHITESPACE', '-IGNORE_WANT'])
-        stmts.append(Stmt(kind, k, style, term, inline))
+        stmts.append(Stmt(kind, k, style, term, inline, ref))
     # never start with something that disables the whole doctest / is not a statement
     if stmts[0].kind in ('comment', 'directive'):
         stmts[0] = Stmt('assign', 0, 'new')
@@ -235,37 +324,66 @@ def gen_program(rng, max_len=7, allow_await=True, allow_star=False, allow_direct
     return prog
 
 
-def place_wants(prog, rng, prob=0.45):
-    """attach CORRECT wants (from the reference execution) and separators"""
+SHIFTS = [0, 0, 1, 2, 3, 4, 8]
+
+
+def place_wants(prog, rng, prob=0.45, layout=True):
+    """attach CORRECT wants (from the reference execution), separators and — where a new example may
+    legitimately start at another column: after a want, a blank line or prose — indentation shifts"""
     outs = per_statement_stdout(prog)
     if any(o is None for o in outs):
         return False
     acc = ''
     nst = len(prog.stmts)
+    shift = rng.choice(SHIFTS) if layout else 0
+    boundary = True
     for i, (s, o) in enumerate(zip(prog.stmts, outs)):
+        if layout and i > 0 and boundary and rng.random() < 0.45:
+            shift = rng.choice(SHIFTS)
+        s.shift = shift
         acc += o
         last = (i == nst - 1)
+        seps = ['blank', 'prose'] + (['shallow'] if (layout and prog.column(s) > 0) else [])
         if s.kind in NO_TRACE:
+            boundary = False
             if not last and rng.random() < 0.2:
-                s.sep = rng.choice(['blank', 'prose'])
-                continue
+                s.sep = rng.choice(seps)
+                boundary = True
             continue
         if rng.random() < prob and not s.terminator:
             want = None
             if acc.strip() and '\n\n' not in acc.strip('\n') and not acc.startswith('\n'):
                 want = acc.rstrip('\n').split('\n')
-            elif not acc and s.kind in ('expr', 'strexpr', 'multiexpr', 'awaitexpr'):
-                want = [{'expr': '%d' % s.k, 'strexpr': "'s%d'" % s.k, 'multiexpr': '(%d, 1)' % s.k,
-                         'awaitexpr': '%d' % s.k}[s.kind]]
+            elif not acc and value_want(s) is not None:
+                want = [value_want(s)]
             if want is not None and all(w.strip() and not w.lstrip().startswith(('>>>', '...')) for w in want):
                 if s.kind == 'multiexpr' or (s.style == 'bare'):
                     # an old-style continuation chunk with a want is compiled in 'single' mode (REPL echo of
                     # the value: C20); an unprefixed string line directly before a want is ambiguous
                     s.style = 'new'
+                if layout and rng.random() < 0.15:
+                    # a want may end in, or be, the ellipsis; as FIRST want line it is a want only after a
+                    # `>>> ` line (after a `... ` line it is a statement terminator)
+                    if len(want) >= 2:
+                        want = want[:-1] + ['...']
+                    elif s.style == 'new' or len(s.lines) == 1:
+                        want = ['...']
                 s.want = want
                 acc = ''
         if s.want is not None:
-            s.sep = rng.choice([None, 'blank', 'prose']) if not last else None
+            s.sep = rng.choice([None, None] + seps) if not last else None
         elif not last and rng.random() < 0.25 and s.style != 'bare':
-            s.sep = rng.choice(['blank', 'prose'])
+            s.sep = rng.choice(seps)
+        boundary = (s.want is not None) or (s.sep is not None)
+    if layout:
+        # a NEW statement written on `... ` lines (old doctest habit): it stays in the part of the preceding lines.
+        # Only in the middle of a chunk that has a later `>>> ` line, otherwise the chunk would be compiled in
+        # 'single' mode (REPL echo, C20)
+        st = prog.stmts
+        for i in range(1, nst - 1):
+            a, b, c = st[i - 1], st[i], st[i + 1]
+            if (a.want is None and a.sep is None and not a.terminator and a.kind not in NO_TRACE and a.style != 'bare'
+                    and not a.cont and b.want is None and b.sep is None and not b.terminator and b.kind not in NO_TRACE
+                    and b.style != 'bare' and not b.inline and b.shift == a.shift == c.shift and rng.random() < 0.15):
+                b.cont = True
     return True
